@@ -23,6 +23,10 @@ func init() {
 				r.Rule("R10f", "INDEX-AT-NODE: every position written to the map forest's leaf index is the position expression of a node-store Put in the same function")
 				checkIndexAtNode(p, r, "R10f")
 			}},
+			{ID: "R10g", Statement: "index updates follow every step of a move", Run: func(p *Program, r *Report) {
+				r.Rule("R10g", "INDEX-UPDATE-NOT-COUNTER-GATED: a leaf-index update inside a loop of the map forest is never conditioned on a comparison of that loop's counter (the index must follow the node on every step of a multi-step move)")
+				checkIndexNotCounterGated(p, r, "R10g")
+			}},
 			{ID: "R10d", Statement: "undo of an addition un-indexes", Run: func(p *Program, r *Report) {
 				r.Rule("R10d", "UNDO-ADD-UNINDEX: in each forest's undo-one-addition function every removal of a node is followed on all paths by the removal of its hash from the leaf index")
 				checkUndoAddUnindex(p, r, "R10d")
